@@ -6,6 +6,7 @@ seed fixes every HashMap's order): the three fonts must be byte-identical, and t
 `voracle src` (harness/src/eval/names.rs) against the manifest."""
 import json
 import os
+import re
 import shutil
 import subprocess
 
@@ -26,16 +27,25 @@ def evaluate(bins, chk, i, source, keep=False):
     wd = os.path.join(chk.scratch, f"e{i}")
     outs = []
     res = {"source": source, "wd": wd}
+    failed = []
     for hs in SEEDS:
         r, out, cmd = compile_font(bins["fontc"], source, wd, name=f"f{hs}", hash_seed=hs, threads=1, timeout=600)
         if r.timed_out:
             res["timed_out"] = True
             return res
         if r.rc != 0 or not os.path.exists(out):
-            res["rc"] = r.rc
-            res["stderr"] = r.stderr[-300:]
-            return res
+            failed.append((hs, r.rc, r.stderr))
+            continue
         outs.append((hs, out, cmd))
+    if failed:
+        # a naming configuration is valid input: a compile that fails under some hash seeds only, or that dies of a panic in the
+        # jobs that resolve name references, is the property failing, not an input problem
+        hs, rc, err = failed[0]
+        site = re.search(r"panicked at (?:/repo/)?([\w./-]+:\d+)", err)
+        res["failed"] = {"seeds": [f[0] for f in failed], "ok_seeds": [o[0] for o in outs], "rc": rc, "panic_site": site.group(1) if site else None,
+                         "stderr": err[-400:]}
+        res["cmd"] = cmd
+        return res
     shas = {common.sha256_file(o) for _, o, _ in outs}
     res["fonts"] = [o for _, o, _ in outs]
     res["cmd"] = outs[0][2]
@@ -64,8 +74,16 @@ def run(tier):
         files = [os.path.dirname(res["source"])] + res.get("fonts", [])[:1]
         if res.get("timed_out"):
             chk.inconc({"source": rel, "why": "watchdog"})
-        elif "rc" in res:
-            chk.inconc({"source": rel, "why": f"rc {res['rc']}", "stderr": res["stderr"][-200:]})
+        elif "failed" in res:
+            fl = res["failed"]
+            site = fl["panic_site"]
+            if fl["ok_seeds"]:
+                chk.violation("c18:compiles-or-fails-by-hash-order", f"{rel}: compiles under hash seeds {fl['ok_seeds']} but fails under {fl['seeds']}"
+                              + (f" (panic at {site})" if site else f": {fl['stderr'][-200:]}"), replay=replay, files=files)
+            elif site and re.search(r"fvar|stat|name|static_metadata|feature", site):
+                chk.violation(f"c18:name-resolution-panics:{site}", f"{rel}: a valid naming configuration ends in a panic at {site}", replay=replay, files=files)
+            else:
+                chk.inconc({"source": rel, "why": f"rc {fl['rc']}", "stderr": fl["stderr"][-200:]})
         elif "oracle" not in res or res["oracle"].get("oracle_panicked"):
             chk.inconc({"source": rel, "why": "oracle failed: " + str(res.get("oracle_error", "panicked"))[:200]})
         else:
@@ -99,6 +117,12 @@ def replay(path):
         if os.path.exists(cand):
             src = cand
     res = evaluate(bins, chk, 0, src)
+    if "failed" in res:
+        fl = res["failed"]
+        if fl["ok_seeds"]:
+            chk.violation("c18:compiles-or-fails-by-hash-order", str(fl), replay=rp)
+        elif fl["panic_site"]:
+            chk.violation(f"c18:name-resolution-panics:{fl['panic_site']}", str(fl), replay=rp)
     if res.get("hash_dependent"):
         chk.violation("c18:depends-on-hash-order", str(res["hash_dependent"]), replay=rp)
     for msg in res.get("oracle", {}).get("violations", {}).get("C18", []):
